@@ -138,7 +138,7 @@ def handle (codes : List (Nat × List Nat)) (line : String) : String :=
     | some code, some nargs, some loop, some depth, some fuel =>
       let o : Oracle := fun _ _ => if orc.startsWith "sat" then .sat else .unknown
       let static := orc.endsWith "+static"
-      let res := runC drvSimp o { loop, depth, balances := true, sha3 := true, create := true } (mkEnv nargs static) ((MAIN, code) :: codes) MAIN fuel
+      let res := runC drvSimp o { loop, depth, balances := true, sha3 := true, create := true, hsto := true } (mkEnv nargs static) ((MAIN, code) :: codes) MAIN fuel
       let ends := (res.ends.map fun e => outName e.e).toArray.qsort (· < ·) |>.toList
       let e := if ends.isEmpty then "-" else ",".intercalate ends
       s!"ends={e} bounded={res.boundedLoops.length} depthcut={if res.depthCut then 1 else 0} fuelout={if res.outOfFuel then 1 else 0}"
@@ -156,7 +156,7 @@ def handle (codes : List (Nat × List Nat)) (line : String) : String :=
     | some code, some nargs, some loop, some depth, some fuel, some args, some caller, some origin, some value =>
       let o : Oracle := fun _ _ => if orc.startsWith "sat" then .sat else .unknown
       let static := orc.endsWith "+static"
-      let res := runC drvSimp o { loop, depth, balances := true, sha3 := true, create := true } (mkEnv nargs static) ((MAIN, code) :: codes) MAIN fuel
+      let res := runC drvSimp o { loop, depth, balances := true, sha3 := true, create := true, hsto := true } (mkEnv nargs static) ((MAIN, code) :: codes) MAIN fuel
       let bvVal (x : String) (_ : Nat) : Nat :=
         if x = "f_sha3_0" then Keccak.keccak256 [] else
         if x = "msg_sender" then caller else if x = "tx_origin" then origin else if x = "msg_value" then value
@@ -165,6 +165,7 @@ def handle (codes : List (Nat × List Nat)) (line : String) : String :=
       -- `f_sha3_<bits>` is Keccak-256 of the `bits/8` bytes
       let uf1Val (name : String) (_ : Nat) (a : Nat) : Nat :=
         if name = "balance_0" then ((balPairs.find? fun kv => kv.1 == a).map (·.2)).getD 0
+        else if name.startsWith "storage_" then 0        -- the empty storage arrays
         else if name.startsWith "f_sha3_" then
           Keccak.keccak256 (Evm.natToBytes (((name.drop 7).toNat?.getD 0) / 8) a)
         else 0
@@ -217,9 +218,9 @@ def handle (codes : List (Nat × List Nat)) (line : String) : String :=
       let o : Oracle := fun _ _ => if orc.startsWith "sat" then .sat else .unknown
       let static := orc.endsWith "+static"
       let cs := (MAIN, code) :: codes
-      let res0 := runC drvSimp o { loop, depth := 0, balances := true, sha3 := true, create := true } (mkEnv nargs static) cs MAIN fuel
+      let res0 := runC drvSimp o { loop, depth := 0, balances := true, sha3 := true, create := true, hsto := true } (mkEnv nargs static) cs MAIN fuel
       if res0.outOfFuel then "steps=0" else
-      let cut (d : Nat) : Bool := (runC drvSimp o { loop, depth := d, balances := true, sha3 := true, create := true } (mkEnv nargs static) cs MAIN fuel).depthCut
+      let cut (d : Nat) : Bool := (runC drvSimp o { loop, depth := d, balances := true, sha3 := true, create := true, hsto := true } (mkEnv nargs static) cs MAIN fuel).depthCut
       let rec up (d : Nat) : Nat → Nat
         | 0 => d
         | k + 1 => if cut d then up (2 * d) k else d
